@@ -34,10 +34,29 @@ def history_obs(ctx):
                     d = {"FUN": fun, "M1": m1, "M2": m2, "AVX": avx}
                     d.update(pd)
                     obs.append(AlgOb("history/%s/m1=%d/m2=%d/avx=%d%s" % (FUNN[fun], m1, m2, avx, tag), "simple.c", "h_simple", "vf.alg.uf:check_equal",
-                                     params={"out_a": "VF_OUT", "out_b": "VF_OUT2", "n": 2 * m1, "nin": 12 * max(m1, m2), "float_inputs": fun not in (6, 8, 9)},
+                                     params={"out_a": "VF_OUT", "out_b": "VF_OUT2", "n": 2 * m1, "nin": 12 * max(m1, m2), "float_inputs": fun not in (6, 8, 9), "marker": "vf_marker"},
                                      defs=d, libs=SLIBS, unwind=200, family=FUNN[fun], timeout=600,
                                      desc="f(M1,P1); f(M2,P2); [f(M1,P2);] f(M1,P1) through the caching entry point vs the same operation on a freshly "
                                           "initialised table: every output of the last call is the same uninterpreted term (hence the same bits)"))
+    return obs
+
+
+def thread_history_obs(ctx):
+    """C12: two-thread call-granularity histories over the thread-local caches (harness/simple.c h_simple_threads)"""
+    obs = []
+    for fun in HAS_PARAMS:
+        b_a, b_b = (63, 50) if fun == 7 else (18, 30)
+        for avx in (0, 1):
+            for (pd, ptag) in (({"D1": 3, "D2": 3, "B1": b_a, "B2": b_b}, "other-bound"), ({"D1": 2, "D2": 5, "B1": b_a, "B2": b_a}, "other-divisor")):
+                # (thread, parameter set) of the two calls preceding the call under test, which is (thread 0, P1)
+                for (ta, pa, tb, pb) in ((0, 2, 1, 1), (0, 1, 1, 2), (1, 2, 0, 2)):
+                    d = {"FUN": fun, "M1": 8, "M2": 8, "AVX": avx, "THREADS": None, "TA": ta, "PA": pa, "TB": tb, "PB": pb}
+                    d.update(pd)
+                    obs.append(AlgOb("threads/%s/m=8/avx=%d/%s/T%d:P%d,T%d:P%d,T0:P1" % (FUNN[fun], avx, ptag, ta, pa, tb, pb), "simple.c", "h_simple_threads",
+                                     "vf.alg.uf:check_equal", params={"out_a": "VF_OUT", "out_b": "VF_OUT2", "n": 16, "nin": 200, "float_inputs": True},
+                                     defs=d, libs=SLIBS, libdefs=("VF_TLS_EMUL",), unwind=200, family=FUNN[fun] + " (two threads)", timeout=600,
+                                     desc="three calls of the same dimension issued by two threads (thread-local caches = one slot per thread), parameters differing "
+                                          "in one component; the last call, on thread 0, returns the same uninterpreted terms as a freshly initialised table"))
     return obs
 
 
